@@ -112,8 +112,77 @@ def _same_bits(a, b):
             and a.dtype == b.dtype and a.tobytes() == b.tobytes())
 
 
+# ---- enumerated single-fault placements on fixed layouts ------------------------------------------------------
+ENUM_CFGS = (
+    dict(rows=24, cols=8, grid=(4, 4), box=(8, 8), cores=2, nslice=2, mask=True),
+    dict(rows=36, cols=8, grid=(4, 4), box=(8, 8), cores=3, nslice=3, mask=True),
+    dict(rows=24, cols=8, grid=(4, 4), box=(8, 8), cores=4, nslice=2, mask=False),
+    dict(rows=33, cols=6, grid=(4, 2), box=(8, 4), cores=3, nslice=None, mask=True),
+)
+
+
+def fixed_cases():
+    """One fixed case per (layout, granularity): inside it *every* placement of one worker exception is tried."""
+    return [{"mode": 63, "enum_cfg": c, "enum_gran": g} for c in range(len(ENUM_CFGS)) for g in (0, 1)]
+
+
+def _enum_case(ch, out):
+    """Fault enumeration: for a fixed layout, one worker exception at every eligible yield point (granularity 0:
+    the synchronisation / I/O / compute seams) or at the first execution of every source line (granularity 1) of
+    every stripe, under the canonical schedule.  Each placement must make the call raise promptly, leak nothing."""
+    ci = ch.draw("enum_cfg", len(ENUM_CFGS))
+    gran = ch.draw("enum_gran", 2)
+    cfg = dict(ENUM_CFGS[ci], naxis=2, nplanes=1, cube_index=0, bitpix=-64, bscale=None)
+    content = dict(seed=7, kind="noise", offset_pow=3, offset_neg=False, sigma_pow=0, blank="pixels", blank_inf=False, blank_seed=3)
+    img = bw.make_image(cfg, content)
+    fn = bw.write_image(os.path.join(bw.tmpdir(), "c07e.fits"), cfg, img)
+    hot, line = (0, 0) if gran == 0 else (0, 1)
+    sched = bw.canonical_sched(hot, line)
+    out.sample = {"enumeration": {"config": _cfg_str(cfg), "granularity": "yield points" if gran == 0 else "source lines"},
+                  "placements": 0}
+    r0 = _run(fn, cfg, sched, ch, fill="payload")
+    _count(out, r0)
+    if not _basic(out, r0, cfg, "canonical schedule (enumeration reference)"):
+        return out
+    placements = []
+    for tname in sorted(n for n in r0.worker_yields if n != "main"):
+        if gran == 0:
+            placements += [(tname, "yield", k) for k in range(r0.worker_yields[tname])]
+        else:
+            placements += [(tname, "line", o) for (o, _fn, _ln, nested) in r0.first_lines.get(tname, ()) if nested]
+    for (tname, at, k) in placements:
+        plan = bw.FaultPlan([dict(kind="exc", task=tname, at=at, k=k, arg=k)])
+        rf = _run(fn, cfg, sched, ch, faults=plan, fill="payload")
+        _count(out, rf)
+        if not plan.fired:
+            out.stats["fault_unfired"] += 1
+            continue
+        out.stats["oracle:fails_cleanly"] += 1
+        out.stats["enumerated_fault_placements"] += 1
+        out.sample["placements"] += 1
+        site = plan.fired[0]["site"]
+        probs = bw.liveness_problems(rf)
+        if probs:
+            out.violation("fault-hang", "enumeration %s: worker %s raised at %s (%s #%d): the call does not raise promptly: %s"
+                          % (_cfg_str(cfg), tname, site, at, k, probs[0][1]), sig="exc", fault_kind="exc", site=site,
+                          cfg=_cfg_str(cfg), layout=str(rf.layout), sched="canonical")
+            return out
+        if rf.status == "returned":
+            out.violation("fault-swallowed", "enumeration %s: worker %s raised at %s (%s #%d) but the call returned normally"
+                          % (_cfg_str(cfg), tname, site, at, k), sig="exc", fault_kind="exc", site=site, cfg=_cfg_str(cfg))
+            return out
+        lk = bw.leak_problems(rf)
+        if lk:
+            out.violation("shm-leak", "enumeration: after worker %s raised at %s: %s" % (tname, site, lk[0][1]),
+                          sig="fault", fault_kind="exc", site=site, cfg=_cfg_str(cfg))
+            return out
+    return out
+
+
 def case(ch):
     out = Outcome()
+    if ch.draw("mode", 64) == 63:
+        return _enum_case(ch, out)
     cfg = bw.gen_config(ch)
     content = bw.gen_content(ch, cfg)
     hot, line = bw.gen_yield_settings(ch)
